@@ -898,10 +898,54 @@ def g5_cfg(mod_toks, rt_toks, files=None):
             raise TranslationError("runtime.rs const %s shape" % name)
         consts[name] = byte_value(rt_toks[i + 5])
     hdr, body = fn_body(rt_toks, "detect_runtime_feature")
-    want = ('if is_x86_feature_detected! ( "avx2" ) { AVX2 } else if is_x86_feature_detected! ( "sse4.2" ) '
-            '{ SSE42 } else { NOP }')
-    if norm(body) != want:
-        raise TranslationError("runtime.rs detect_runtime_feature changed: " + norm(body))
+    # a decision list: `if is_x86_feature_detected!("f") { ID }` tests in order (an else-if chain or early returns),
+    # then the default; it must read: avx2 -> AVX2, sse4.2 -> SSE42, otherwise NOP
+    import rsparse as _rp
+
+    def _decisions(blk):
+        out = []
+        def val(e):
+            if e[0] == "block" and not e[1] and e[2] is not None:
+                return val(e[2])
+            if e[0] == "block" and len(e[1]) == 1 and e[2] is None and e[1][0][0] == "expr" and e[1][0][1][0] == "return":
+                return val(e[1][0][1][1])
+            if e[0] == "return":
+                return val(e[1])
+            if e[0] == "path":
+                return e[1]
+            raise TranslationError("runtime.rs detect_runtime_feature: value " + repr(e)[:80])
+        def feat(c):
+            if c[0] == "macro" and c[1] == "is_x86_feature_detected" and len(c[2]) == 1 and c[2][0][0] == "str":
+                return c[2][0][1].strip('"')
+            raise TranslationError("runtime.rs detect_runtime_feature: condition " + repr(c)[:80])
+        def chain(e):
+            # if c { v } [else <chain or block>]
+            out.append((feat(e[1]), val(e[2])))
+            if e[3] is None:
+                return False
+            if e[3][0] == "if":
+                return chain(e[3])
+            out.append((None, val(e[3])))
+            return True
+        done = False
+        for st in blk[1]:
+            if done or st[0] != "expr" or st[1][0] != "if":
+                raise TranslationError("runtime.rs detect_runtime_feature: statement " + repr(st)[:80])
+            done = chain(st[1])
+        if blk[2] is not None:
+            if done:
+                raise TranslationError("runtime.rs detect_runtime_feature: code after the default")
+            if blk[2][0] == "if":
+                done = chain(blk[2])
+            else:
+                out.append((None, val(blk[2])))
+                done = True
+        if not done:
+            raise TranslationError("runtime.rs detect_runtime_feature: no default")
+        return out
+    dec = _decisions(_rp.RParser(body).parse_block_body(None))
+    if dec != [("avx2", "AVX2"), ("sse4.2", "SSE42"), (None, "NOP")]:
+        raise TranslationError("runtime.rs detect_runtime_feature changed: " + repr(dec))
     # any further `const NAME: u8 = <literal>;` of runtime.rs (e.g. a name for the "not detected yet" value 0) is
     # resolved to its literal before the two texts below are compared
     extra = {}
